@@ -52,6 +52,10 @@ class Body:
                     s.append([t["t"]])
                 else:
                     s.append([])
+            # edges into `unreachable` blocks (otherwise-arms of exhaustive matches) are never taken
+            dead = {i for i, b in enumerate(self.blocks) if b["t"]["k"] == "unreachable" and not b["s"]}
+            if dead:
+                s = [[x for x in ss if x not in dead] for ss in s]
             self._succ = s
         return self._succ
 
@@ -157,6 +161,106 @@ class Body:
                     body.add(x)
                     st.extend(preds[x])
         return loops
+
+    def postdominators(self):
+        """immediate post-dominators w.r.t. a virtual exit joined to all return blocks (and other blocks without normal successors).
+        returns dict block -> ipdom (virtual exit = -1)"""
+        if getattr(self, "_pdom", None) is not None:
+            return self._pdom
+        succ = self.succ()
+        n = len(self.blocks)
+        reach = self.reachable()
+        exits = [i for i in reach if not succ[i]]
+        rsucc = {i: [] for i in reach}   # reverse graph successors = CFG predecessors
+        rsucc[-1] = list(exits)
+        for i in reach:
+            for y in succ[i]:
+                if y in reach:
+                    rsucc.setdefault(y, []).append(i)
+        # rpo on reverse graph from -1
+        seen = {-1}
+        order = []
+        st = [(-1, 0)]
+        while st:
+            x, k = st[-1]
+            if k < len(rsucc.get(x, [])):
+                st[-1] = (x, k + 1)
+                y = rsucc[x][k]
+                if y not in seen:
+                    seen.add(y)
+                    st.append((y, 0))
+            else:
+                order.append(x)
+                st.pop()
+        order.reverse()
+        idx = {b: i for i, b in enumerate(order)}
+        rpred = {}
+        for x, ys in rsucc.items():
+            for y in ys:
+                rpred.setdefault(y, []).append(x)
+        idom = {-1: -1}
+        changed = True
+        while changed:
+            changed = False
+            for b in order[1:]:
+                new = None
+                for p in rpred.get(b, []):
+                    if p in idom:
+                        if new is None:
+                            new = p
+                        else:
+                            a, c = p, new
+                            while a != c:
+                                while idx[a] > idx[c]:
+                                    a = idom[a]
+                                while idx[c] > idx[a]:
+                                    c = idom[c]
+                            new = a
+                if new is not None and idom.get(b) != new:
+                    idom[b] = new
+                    changed = True
+        self._pdom = idom
+        return idom
+
+    def postdominates(self, a, b):
+        """a post-dominates b (reflexive)"""
+        pd = self.postdominators()
+        if b not in pd:
+            return False
+        while True:
+            if a == b:
+                return True
+            if b == -1:
+                return False
+            b = pd[b]
+
+    def control_deps(self, w):
+        """switch blocks the execution of block w is control dependent on: list of (switch block, successor taken)"""
+        out = []
+        succ = self.succ()
+        for s, blk in enumerate(self.blocks):
+            if blk["t"]["k"] != "switch" or blk["cleanup"]:
+                continue
+            if self.postdominates(w, s) and w != s:
+                continue
+            for x in succ[s]:
+                if self.postdominates(w, x):
+                    out.append((s, x))
+        return out
+
+    def control_deps_closure(self, w):
+        """transitive control dependences of block w"""
+        out = []
+        seen = set()
+        work = [w]
+        while work:
+            x = work.pop()
+            for (sb, succ_taken) in self.control_deps(x):
+                if (sb, succ_taken) not in seen:
+                    seen.add((sb, succ_taken))
+                    out.append((sb, succ_taken))
+                    work.append(sb)
+        return out
 
     def return_blocks(self):
         return [i for i, b in enumerate(self.blocks) if b["t"]["k"] == "return" and not b["cleanup"]]
